@@ -287,7 +287,9 @@ Fixpoint slookup {A} (k : string) (t : list (string * A)) (d : A) : A :=
 Local Open Scope string_scope.
 
 (* THE SPECIFICATION of C12: which mutex guards which field (DESIGN.md section 4, C12). A field that is
-   not listed maps to the mutex "?" which nothing ever acquires, so an access to it is rejected. *)
+   not listed maps to the mutex "?" which nothing ever acquires, so an access to it is rejected. The translator
+   uses exactly that for the publish-once rule: an assignment to a field of a crossbar.Client that other goroutines
+   can already reach is emitted as [Wr (prefix, "Client.<field> (after publication)")]. *)
 Definition guard_table : list (string * string) :=
   [ ("CodeStore.store", "CodeStore.Mutex");
     ("deny.Store.AllowList", "deny.Store.Mutex");
